@@ -1,7 +1,7 @@
 (** C05 - every client request means at the device exactly what the caller asked for. *)
 From Coq Require Import String ZArith List.
 From NX Require Import Bytes Frame Wire Request Request_proofs Pinned_parse Pinned_parserecv.
-From NX Require PyLite Src_all Src_serialframe_proofs Src_parse_req_proofs.
+From NX Require PyLite Src_all Src_serialframe_proofs Src_parse_req_proofs Src_parserecv_proofs Src_request_corollaries.
 Open Scope Z_scope.
 
 (** [delivered r fr payload]: the client call produced the NxScope frame
@@ -94,6 +94,94 @@ Theorem C05_div_vector_src : forall n l chmax,
   call_method program (3 + n) pa "frame_div" [PList (map PInt l); PInt chmax] =
   emb (frame_div (DivVec l) chmax).
 Proof. exact frame_div_vec_spec. Qed.
+
+(** end to end on the source: what the interpreted client builds, the interpreted device-side
+    dispatcher hands to the right (recording) callback, and the interpreted device-side decoder
+    turns into exactly the intended per-channel vector - every device size 1..255, every current
+    state [chans] (a Device object as the interpreted constructor builds it), every vector *)
+
+Theorem C05_enable_vector_end_to_end_src : forall n lg x chans l,
+  length l = length chans -> 1 <= zlen chans <= 255 ->
+  exists frame payload,
+    call_method program (3 + n) pa "frame_enable" [PList (map PBool l); PInt (zlen chans)] =
+      PyLite.Ok (PBytes frame, pa) /\
+    call_method program (4 + n) (Src_parserecv_proofs.pr lg) "recv_handle" [PBytes frame] =
+      PyLite.Ok (PNone, Src_request_corollaries.logged lg "enable" payload) /\
+    call_method program (3 + n) (Src_parserecv_proofs.pr lg) "frame_enable_decode" [PBytes payload; Src_parserecv_proofs.dev_obj x chans] =
+      PyLite.Ok (PList (map PBool l), Src_parserecv_proofs.pr lg).
+Proof. exact Src_request_corollaries.src_enable_vector_end_to_end. Qed.
+
+Theorem C05_enable_single_end_to_end_src : forall n lg x chans k v,
+  0 <= k < zlen chans -> zlen chans <= 255 ->
+  exists frame cur',
+    call_method program (3 + n) pa "frame_enable" [PTuple [PInt k; PBool v]; PInt (zlen chans)] =
+      PyLite.Ok (PBytes frame, pa) /\
+    call_method program (4 + n) (Src_parserecv_proofs.pr lg) "recv_handle" [PBytes frame] =
+      PyLite.Ok (PNone, Src_request_corollaries.logged lg "enable" [0%N; Z.to_N k; b01 v]) /\
+    call_method program (3 + n) (Src_parserecv_proofs.pr lg) "frame_enable_decode"
+      [PBytes [0%N; Z.to_N k; b01 v]; Src_parserecv_proofs.dev_obj x chans] =
+      PyLite.Ok (PList (map PBool cur'), Src_parserecv_proofs.pr lg) /\
+    Request.list_set (map Src_parserecv_proofs.ch_en chans) (Z.to_nat k) v = Some cur'.
+Proof. exact Src_request_corollaries.src_enable_single_end_to_end. Qed.
+
+Theorem C05_div_vector_end_to_end_src : forall n lg x chans l,
+  length l = length chans -> 1 <= zlen chans <= 255 -> all_u8 l ->
+  exists frame payload,
+    call_method program (3 + n) pa "frame_div" [PList (map PInt l); PInt (zlen chans)] =
+      PyLite.Ok (PBytes frame, pa) /\
+    call_method program (4 + n) (Src_parserecv_proofs.pr lg) "recv_handle" [PBytes frame] =
+      PyLite.Ok (PNone, Src_request_corollaries.logged lg "div" payload) /\
+    call_method program (3 + n) (Src_parserecv_proofs.pr lg) "frame_div_decode" [PBytes payload; Src_parserecv_proofs.dev_obj x chans] =
+      PyLite.Ok (PList (map PInt l), Src_parserecv_proofs.pr lg).
+Proof. exact Src_request_corollaries.src_div_vector_end_to_end. Qed.
+
+Theorem C05_div_single_end_to_end_src : forall n lg x chans k v,
+  0 <= k < zlen chans -> zlen chans <= 255 -> 0 <= v < 256 ->
+  exists frame cur',
+    call_method program (3 + n) pa "frame_div" [PTuple [PInt k; PInt v]; PInt (zlen chans)] =
+      PyLite.Ok (PBytes frame, pa) /\
+    call_method program (4 + n) (Src_parserecv_proofs.pr lg) "recv_handle" [PBytes frame] =
+      PyLite.Ok (PNone, Src_request_corollaries.logged lg "div" [0%N; Z.to_N k; Z.to_N v]) /\
+    call_method program (3 + n) (Src_parserecv_proofs.pr lg) "frame_div_decode"
+      [PBytes [0%N; Z.to_N k; Z.to_N v]; Src_parserecv_proofs.dev_obj x chans] =
+      PyLite.Ok (PList (map PInt cur'), Src_parserecv_proofs.pr lg) /\
+    Request.list_set (map Src_parserecv_proofs.ch_div chans) (Z.to_nat k) v = Some cur'.
+Proof. exact Src_request_corollaries.src_div_single_end_to_end. Qed.
+
+Theorem C05_start_end_to_end_src : forall n lg v,
+  exists frame,
+    call_method program (2 + n) pa "frame_start" [PBool v] = PyLite.Ok (PBytes frame, pa) /\
+    call_method program (4 + n) (Src_parserecv_proofs.pr lg) "recv_handle" [PBytes frame] =
+      PyLite.Ok (PNone, Src_request_corollaries.logged lg "start" [b01 v]) /\
+    call_method program (1 + n) (Src_parserecv_proofs.pr lg) "frame_start_decode" [PBytes [b01 v]] =
+      PyLite.Ok (PBool v, Src_parserecv_proofs.pr lg).
+Proof. exact Src_request_corollaries.src_start_end_to_end. Qed.
+
+Theorem C05_chinfo_end_to_end_src : forall n lg k,
+  0 <= k <= 255 ->
+  exists frame,
+    call_method program (2 + n) pa "frame_chinfo" [PInt k] = PyLite.Ok (PBytes frame, pa) /\
+    call_method program (4 + n) (Src_parserecv_proofs.pr lg) "recv_handle" [PBytes frame] =
+      PyLite.Ok (PNone, Src_request_corollaries.logged lg "chinfo" [Z.to_N k]).
+Proof. exact Src_request_corollaries.src_chinfo_request_end_to_end. Qed.
+
+Theorem C05_cmninfo_end_to_end_src : forall n lg,
+  exists frame,
+    call_method program (2 + n) pa "frame_cmninfo" [] = PyLite.Ok (PBytes frame, pa) /\
+    call_method program (4 + n) (Src_parserecv_proofs.pr lg) "recv_handle" [PBytes frame] =
+      PyLite.Ok (PNone, Src_request_corollaries.logged lg "cmninfo" []).
+Proof. exact Src_request_corollaries.src_cmninfo_request_end_to_end. Qed.
+
+(** the device-side decoders are the model on EVERY payload and every device *)
+Theorem C05_enable_decode_refines_src : forall n lg x chans d,
+  call_method program (3 + n) (Src_parserecv_proofs.pr lg) "frame_enable_decode" [PBytes d; Src_parserecv_proofs.dev_obj x chans] =
+  Src_parserecv_proofs.emb_req (fun l => PList (map PBool l)) (Src_parserecv_proofs.pr lg) (frame_enable_decode d (map Src_parserecv_proofs.ch_en chans)).
+Proof. exact Src_parserecv_proofs.frame_enable_decode_spec. Qed.
+
+Theorem C05_div_decode_refines_src : forall n lg x chans d,
+  call_method program (3 + n) (Src_parserecv_proofs.pr lg) "frame_div_decode" [PBytes d; Src_parserecv_proofs.dev_obj x chans] =
+  Src_parserecv_proofs.emb_req (fun l => PList (map PInt l)) (Src_parserecv_proofs.pr lg) (frame_div_decode d (map Src_parserecv_proofs.ch_div chans)).
+Proof. exact Src_parserecv_proofs.frame_div_decode_spec. Qed.
 End OnSource.
 
 Example C05_example :
@@ -110,3 +198,5 @@ Print Assumptions C05_div_single.
 Print Assumptions C05_div_vector.
 Print Assumptions C05_enable_vector_src.
 Print Assumptions C05_div_vector_src.
+Print Assumptions C05_enable_vector_end_to_end_src.
+Print Assumptions C05_div_single_end_to_end_src.
